@@ -21,14 +21,14 @@ RULE = ("(1) calibrate_scores called directly: exhaustive over all score vectors
         "arrays, non-contiguous views, pandas Series with default, permuted, gapped and string row labels; targets as bool / 0-1 int / "
         "0-1 float arrays and bool / int Series with row labels that differ from those of the scores (the pairing is positional); "
         "eval_fdr as float, numpy float64, the int 1 and 0.0; "
-        "(2) OnDiskPsmDataset.calibrate_scores (targets read from the file: tsv / Parquet, labels -1/1, 0/1, bool) — known finding, see "
-        "known_findings.json; (3) real brew runs (as C02: 1-3 files, folds 2-6 and 10-13, chunk sizes, workers, decision_function "
+        "(2) OnDiskPsmDataset.calibrate_scores (targets read from the file: tsv / Parquet, labels -1/1, 0/1, bool; it always raised before /repo 93b7f44) "
+        "compared exactly with the model; (3) real brew runs (as C02: 1-3 files, folds 2-6 and 10-13, chunk sizes, workers, decision_function "
         "and predict_proba estimators, several test_fdr incl. ones at which a fold accepts nothing); runs whose feature values are "
         "exact affine images of the generated integers (large offsets, negative and mixed-sign values, half-integers, tiny / huge "
         "scales; integer images in tsv, dyadic ones in Parquet), whose estimator returns float32 or int64 decision values, all three "
         "label encodings, several prediction chunks; runs with a list of previously trained fold models (given in rotated order); "
         "runs with one previously trained model that gets worse when re-fitted (brew then scores each file with the original model "
-        "and calibrates per file through OnDiskPsmDataset.calibrate_scores — same known finding): returned scores compared exactly "
+        "and calibrates per file through OnDiskPsmDataset.calibrate_scores): returned scores compared exactly "
         "with the model's calibrated rationals. non-trivial: direct = has both targets and decoys and a tie or a decoy above a "
         "target; brew = the run returned scores from a decision_function estimator and every (file, fold) group had an accepted "
         "target above its decoy median so that the anchored map was compared value by value, or brew stopped with the calibration "
